@@ -307,7 +307,7 @@ func (g *G) JSONText(label string) []byte {
 // encoding/json marshals without error.
 func (g *G) Iface(depth int, label string, jsonable bool) *Iface {
 	t := g.t
-	kinds := []string{"nil", "str", "int", "float", "bool", "struct", "ptrnil"}
+	kinds := []string{"nil", "str", "int", "float", "bool", "struct", "ptrnil", "anon", "anonptr", "anonslice"}
 	if depth > 0 {
 		kinds = append(kinds, "list", "map", "list", "map")
 	}
@@ -318,7 +318,7 @@ func (g *G) Iface(depth int, label string, jsonable bool) *Iface {
 		// Fields() handles string/int64/float64/bool/nil/RawMessage natively: only
 		// values that reach its reflection arm are drawn here
 		g.compositeOnly = false
-		kinds = []string{"struct", "ptrnil", "list", "map"}
+		kinds = []string{"struct", "ptrnil", "list", "map", "anon", "anonptr", "anonslice"}
 		if !jsonable {
 			kinds = append(kinds, "unmarshalable", "objmarshaler")
 		}
@@ -340,6 +340,9 @@ func (g *G) Iface(depth int, label string, jsonable bool) *Iface {
 		}
 	case "bool":
 		i.B = rapid.Bool().Draw(t, label+".b")
+	case "anon", "anonptr", "anonslice":
+		i.S = g.Bytes(label + ".s")
+		i.I = g.Int(64, label+".i")
 	case "struct":
 		i.S = g.Bytes(label + ".s")
 		i.I = g.Int(64, label+".i")
@@ -642,6 +645,10 @@ func (g *G) Ops(where string, depth int, label string) []Op {
 	}
 	n := rapid.IntRange(0, g.cfg.MaxOps).Draw(g.t, label+".nops")
 	ops := make([]Op, 0, n)
+	if g.focus == "errors" && n > 0 && (where == "event" || where == "context") && rapid.Bool().Draw(g.t, label+".stackfirst") {
+		// the stack marshaler is consulted only after Stack(): switch it on before the error-bearing fields
+		ops = append(ops, Op{V: Val{T: "stack"}})
+	}
 	for i := 0; i < n; i++ {
 		v := g.Val(where, depth, label+".v")
 		op := Op{V: v}
@@ -698,6 +705,9 @@ func (g *G) Settings() Settings {
 	s.ErrMarshal = rapid.SampledFrom([]string{"", "", "", "string", "obj", "othererr", "nil", "struct"}).Draw(t, "set.em")
 	s.StackMarshal = rapid.SampledFrom([]string{"", "", "nil", "string", "error", "obj", "frames", "nilerr"}).Draw(t, "set.sm")
 	s.IfaceMarshal = rapid.SampledFrom([]string{"", "", "stdjson", "wrap"}).Draw(t, "set.im")
+	if rapid.IntRange(0, 5).Draw(t, "set.glow") == 0 {
+		s.GlobalLow = rapid.SampledFrom([]int{8, 8, 3, 128}).Draw(t, "set.glowv")
+	}
 	switch g.focus {
 	case "errors":
 		s.ErrMarshal = rapid.SampledFrom([]string{"", "string", "obj", "othererr", "nil", "struct"}).Draw(t, "set.em2")
@@ -720,6 +730,9 @@ func (g *G) Hook(id int, label string) HookSpec {
 	h := HookSpec{ID: id}
 	h.Kind = rapid.SampledFrom([]string{"add", "add", "add", "getctx", "noop", "discard"}).Draw(t, label+".hk")
 	h.Wrap = rapid.SampledFrom([]string{"", "", "func", "level", "levelsome"}).Draw(t, label+".hw")
+	if g.set.GlobalLow > 0 && rapid.Bool().Draw(t, label+".hwlow") {
+		h.Wrap = "level" // custom verbose levels are where a LevelHook must stay silent
+	}
 	switch h.Kind {
 	case "add":
 		save := g.cfg.MaxOps
@@ -838,6 +851,8 @@ func (g *G) Steps(label string, maxSteps int) []Step {
 		k := rapid.SampledFrom(kinds).Draw(t, label+".sk")
 		if forced != "" {
 			k = forced
+		} else if i == 0 && g.set.GlobalLow > 0 && rapid.Bool().Draw(t, label+".opengate") {
+			k = "level" // the root logger's level is Trace: lower it, or no custom verbose level gets through
 		}
 		st := Step{Kind: k, From: from}
 		switch k {
@@ -860,7 +875,10 @@ func (g *G) Steps(label string, maxSteps int) []Step {
 				st.Hooks = append(st.Hooks, g.Hook(hid, label+".h"))
 			}
 		case "level":
-			st.Level = rapid.SampledFrom([]int{-1, -1, 0, 0, 1, -5, 3, 7, 7, 6, 5}).Draw(t, label+".lvl")
+			st.Level = rapid.SampledFrom([]int{-1, -1, 0, 0, 1, -5, -8, 3, 7, 7, 6, 5}).Draw(t, label+".lvl")
+			if g.set.GlobalLow > 0 && rapid.Bool().Draw(t, label+".lvllow") {
+				st.Level = rapid.SampledFrom([]int{-8, -8, -5, -128, -3}).Draw(t, label+".lvllowv")
+			}
 			if forced == "level" && forceLevel != 99 {
 				st.Level, forceLevel = forceLevel, 99
 			}
@@ -893,7 +911,11 @@ func (g *G) Event(label string) EventSpec {
 		g.errInto(&v, label+".errv")
 		ev.ErrV = &v
 	case "withlevel":
-		ev.Level = rapid.SampledFrom([]int{-1, 0, 1, 2, 3, 4, 5, 6, 8, 42, -7, 127}).Draw(t, label+".wl")
+		ev.Level = rapid.SampledFrom([]int{-1, 0, 1, 2, 3, 4, 5, 6, 8, 42, -7, 127, -2, -3, -5}).Draw(t, label+".wl")
+	}
+	if g.set.GlobalLow > 0 && rapid.Bool().Draw(t, label+".lowev") {
+		ev.Method, ev.ErrV = "withlevel", nil
+		ev.Level = rapid.SampledFrom([]int{-2, -2, -3, -5, -8, -128}).Draw(t, label+".lowlvl")
 	}
 	ev.Ops = g.Ops("event", g.cfg.MaxDepth, label+".ops")
 	ev.Fin = rapid.SampledFrom([]string{"msg", "msg", "msgf", "msgf2", "msgf0", "msgfunc", "send"}).Draw(t, label+".fin")
